@@ -245,6 +245,44 @@ def run(ctx):
                         res.site(key, True, {"verdict": "ok" if reads_mut else "VIOLATION"})
                         if not reads_mut:
                             res.find(key, rs.loc(arm["sp"]), "the Immediate arm of resolve does not test the slot's `mutable` flag", "`CALL f 1.0` for a `mut` parameter resolves")
+    # R3c a Mismatched* error is raised exactly when the declared type / size DIFFERS from the expected one
+    nmis = 0
+    for fn_name in ("resolve", "resolve_return"):
+        hf = None
+        try:
+            hf = db.fn(UCA + "::" + fn_name)
+        except KeyError:
+            pass
+        if hf is None:
+            continue
+        for g in [hf] + db.closures_of(hf):
+            for bb, s_ in aggregates(g):
+                a = s_["rv"]["a"]
+                if not (a["path"].endswith(ERR) and a["variant"] in ("MismatchedScalar", "MismatchedVector")):
+                    continue
+                nmis += 1
+                key = "K7|mismatch-error-on-inequality|%s|%s#%d" % (fn_name, a["variant"], nmis)
+                verdict = None
+                for sb, tgt in sorted(g.control_deps(bb, transitive=False)):
+                    tt = g.blocks[sb]["t"]
+                    if tt["k"] != "switch":
+                        continue
+                    e = fn_expr_operand(g, tt["d"])
+                    if e[0] == "call" and e[1].rsplit("::", 1)[-1] in ("ne", "eq") and "PartialEq" in e[1]:
+                        false_targets = [target for v, target in tt["ts"] if int(v) == 0]
+                        on_true = bool(false_targets) and tgt not in false_targets
+                        verdict = on_true == (e[1].rsplit("::", 1)[-1] == "ne")
+                    elif e[0] == "bin" and e[1] in ("Ne", "Eq"):
+                        false_targets = [target for v, target in tt["ts"] if int(v) == 0]
+                        on_true = bool(false_targets) and tgt not in false_targets
+                        verdict = on_true == (e[1] == "Ne")
+                if verdict is None:
+                    res.site(key, False, {"verdict": "undecided: the guarding comparison was not recognised"})
+                    continue
+                res.site(key, True, {"raised_when_types_differ": verdict, "verdict": "ok" if verdict else "VIOLATION"})
+                if not verdict:
+                    res.find(key, g.loc(s_["sp"]), "%s raises %s when the declared type or size EQUALS the expected one (and accepts it when it differs)" % (fn_name, a["variant"]), "`CALL f x` with `DECLARE x REAL` against `(x : REAL)` is rejected, against `(x : INTEGER)` it resolves")
+    res.count("mismatch_error_sites", nmis, floor=4)
     # R4
     rr = require_fn(db, res, UCA + "::resolve_return")
     if rr:
